@@ -238,7 +238,7 @@ func c12RunCase(w *vx.W, envs map[string]c12Env, x c12Case) {
 
 func TestVerif_C12(t *testing.T) {
 	vx.Run(t, "C12", func(c *vx.Ctx) {
-		c.Rule("cases = every WriteScheduler-contract-respecting history (ids opened in ascending order and never reused; HEADERS/DATA only on open streams; RST_STREAM on any id incl. closed and never-opened; AdjustStream on any id, never self-dependent) of length <= depth over the part's alphabet, for every scheduler configuration of the part (random, round-robin, RFC 9218, RFC 7540 default / retention 0 / retention 1 / throttling), shortest first, each ending in an implicit drain (windows opened, Pop until none). Streams are real *stream values with outflows linked to a connection outflow. After every Pop a FIFO model that follows the scheduler's choice checks: non-empty request, control frames first (connection control frames in push order), head of the chosen stream's queue, DATA pieces = next bytes, within stream/conn window and maxFrameSize, END_STREAM and done channel only on the final piece, windows debited exactly; Pop()==false only if nothing is sendable. Non-trivial = history in which at least one frame was popped and checked")
+		c.Rule("cases = every WriteScheduler-contract-respecting history (ids opened in ascending order and never reused; HEADERS/DATA only on open streams; RST_STREAM on any id incl. closed and never-opened; AdjustStream on any id, never self-dependent) of length <= depth over the part's alphabet, for every scheduler configuration of the part (random, round-robin, RFC 9218, RFC 7540 default / retention 0 / retention 1 / throttling), shortest first, each ending in an implicit drain (windows opened, Pop until none), then one HEADERS frame pushed on every stream that is still open and a second drain (every open stream must still be reachable for Pop). Part prio9218/buffered-update (RFC 9218 scheduler, ids 1,3,5): the alphabet is OpenStream with the default priority, AdjustStream on every id whether open or not yet open with (urgency,incremental) in {(3,0) = the default bucket, (3,1), (0,1), (7,0)} (an AdjustStream on a not yet open id is a buffered PRIORITY_UPDATE that the next OpenStream of that id applies; one on the never-opened id 7 replaces the buffer), HEADERS, a multi-piece DATA, CloseStream, Pop; histories start from the empty scheduler and from every seed Open(ids below b) Adjust(b,p) Open(b) with b in {1,3,5} and p a non-default bucket. Before every Pop of the RFC 9218 scheduler the harness reports instead of calling Pop when Pop is certain to loop forever (no control frame, every ring visited earlier closed and empty, and the walk from a ring head passes only empty queues and never returns to the head). Streams are real *stream values with outflows linked to a connection outflow. After every Pop a FIFO model that follows the scheduler's choice checks: non-empty request, control frames first (connection control frames in push order), head of the chosen stream's queue, DATA pieces = next bytes, within stream/conn window and maxFrameSize, END_STREAM and done channel only on the final piece, windows debited exactly; Pop()==false only if nothing is sendable. Non-trivial = history in which at least one frame was popped and checked")
 		c.Assume("histories outside the WriteScheduler contract are not generated: re-opening an id, CloseStream/HEADERS/DATA on a non-open id, opening ids out of ascending order, AdjustStream with StreamDep == StreamID (filtered by the server), pushed streams (PusherID)")
 		c.Assume("RST_STREAM frames are exempt from ordering (WriteScheduler.Pop doc); connection control frames must keep push order among themselves")
 		envs := c12Envs()
